@@ -20,17 +20,19 @@ Z_REG = 8.0                      # regression check: |A_hat - A| <= Z_REG standa
 # graphs
 # ----------------------------------------------------------------------------------------------
 def make_graph(rng, n, kind):
-    """user-supplied graphs on nodes 0..n-1 (inserted in order)"""
+    """user-supplied graphs with node labels 0..n-1; in half of them the nodes are INSERTED in a random order, so that
+    matrix index k (networkx convention: k-th node of G.nodes()) differs from the label"""
+    nodes = [int(x) for x in rng.permutation(n)] if rng.random() < 0.5 else list(range(n))
     if kind == "undirected":
         G = nx.Graph()
-        G.add_nodes_from(range(n))
+        G.add_nodes_from(nodes)
         for u in range(n):
             for v in range(u + 1, n):
                 if rng.random() < 0.4:
                     G.add_edge(u, v)
         return G
     G = nx.DiGraph()
-    G.add_nodes_from(range(n))
+    G.add_nodes_from(nodes)
     if kind == "empty":
         pass
     elif kind == "dag":
@@ -78,12 +80,14 @@ def graph_used(n, p, seed, G):
 
 
 def adjacency_of(G, n):
-    """adj[u, v] = 1 iff u -> v, from the edge list (not through networkx's matrix export)"""
+    """adj[k, l] = 1 iff (k-th node of G.nodes()) -> (l-th node), from the edge list (not through networkx's matrix
+    export); rows/columns of the returned matrices and columns of the series are indexed the same way"""
+    pos = {u: k for k, u in enumerate(G.nodes())}
     adj = np.zeros((n, n))
     for u, v in G.edges():
-        adj[u, v] = 1.0
+        adj[pos[u], pos[v]] = 1.0
         if not G.is_directed():
-            adj[v, u] = 1.0
+            adj[pos[v], pos[u]] = 1.0
     return adj
 
 
@@ -95,6 +99,23 @@ def is_acyclic(adj):
     for _ in range(n):
         Q = ((Q @ P) > 0).astype(np.int64)
     return not Q.any()
+
+
+class Raised:
+    """an exception raised by the implementation on an in-scope call is a property failure, not a machinery failure"""
+    def __init__(self, e):
+        self.what = f"{type(e).__name__}: {e}"
+
+
+def call(f, *a, **kw):
+    try:
+        return f(*a, **kw)
+    except Exception as e:
+        return Raised(e)
+
+
+def head(X, k):
+    return X[:k].tolist() if isinstance(X, np.ndarray) and X.ndim == 2 else repr(X)
 
 
 def perturb_globals(rng):
@@ -139,6 +160,9 @@ def radius_info(A):
 def lin_pred(c, out, out2, out_eps2, R, W, adj):
     """the property on the implementation's behaviour; independent of the Coq model"""
     n, T, rho, eps, eps2 = c["n"], c["T"], c["rho"], c["epsilon"], c["eps2"]
+    for o in (out, out2, out_eps2):
+        if isinstance(o, Raised):
+            return f"the call raised {o.what}"
     XY, A = out
     if not (isinstance(XY, np.ndarray) and XY.shape == (T, n)):
         return f"series shape {getattr(XY, 'shape', None)}, expected {(T, n)}"
@@ -151,11 +175,12 @@ def lin_pred(c, out, out2, out_eps2, R, W, adj):
     bad = np.argwhere((A != 0) & (adj.T == 0))
     if len(bad):
         i, j = [int(x) for x in bad[0]]
-        return f"A[{i},{j}] = {A[i, j]!r} is non-zero but the graph has no edge {j} -> {i}: A is not supported on the transposed graph"
+        return f"A[{i},{j}] = {float(A[i, j])!r} is non-zero but the graph has no edge {j} -> {i}: A is not supported on the transposed graph"
     r, trustworthy = radius_info(A)
     if is_acyclic(adj):
-        if r > TOL:
-            return f"acyclic graph but spectral radius of the returned A is {r!r}, expected 0"
+        # exact: a matrix whose non-zero pattern has no directed cycle is nilpotent, i.e. has spectral radius 0
+        if not is_acyclic((A != 0).astype(float)):
+            return "acyclic graph but the returned A is not nilpotent (spectral radius 0 expected)"
         c["_radius"] = "acyclic:0"
     elif trustworthy:
         if abs(r - rho) > TOL * rho:
@@ -169,8 +194,8 @@ def lin_pred(c, out, out2, out_eps2, R, W, adj):
     lim = TOL * (eps + np.abs(XY) + np.abs(pred))
     if np.any(err > lim):
         t, i = [int(x) for x in np.argwhere(err > lim)[0]]
-        return (f"X[{t},{i}] - (A X[{t - 1}])[{i}] = {E[t, i]!r} but epsilon * (seed's standard normal) = {eps * W[t, i]!r}"
-                if t > 0 else f"X[0,{i}] = {XY[0, i]!r} but epsilon * (seed's standard normal) = {eps * W[0, i]!r}")
+        return (f"X[{t},{i}] - (A X[{t - 1}])[{i}] = {float(E[t, i])!r} but epsilon * (seed's standard normal) = {float(eps * W[t, i])!r}"
+                if t > 0 else f"X[0,{i}] = {float(XY[0, i])!r} but epsilon * (seed's standard normal) = {float(eps * W[0, i])!r}")
     X2, A2 = out_eps2
     if not np.array_equal(A2, A):
         return "the returned matrix depends on epsilon"
@@ -186,7 +211,7 @@ def lin_pred(c, out, out2, out_eps2, R, W, adj):
         c["_zmax"] = float(z.max())
         if z.max() > Z_REG:
             i, j = [int(x) for x in np.unravel_index(int(np.argmax(z)), z.shape)]
-            return (f"regressing X_t on X_(t-1) (T={T}) gives A_hat[{i},{j}] = {Ahat[i, j]!r}, returned A[{i},{j}] = {A[i, j]!r}: "
+            return (f"regressing X_t on X_(t-1) (T={T}) gives A_hat[{i},{j}] = {float(Ahat[i, j])!r}, returned A[{i},{j}] = {float(A[i, j])!r}: "
                     f"{z.max():.1f} standard errors apart (budget {Z_REG})")
     return None
 
@@ -241,6 +266,9 @@ def replay_poisson(seed, base, n, X, lam_rows):
 
 def pois_pred(c, out, out2, adj):
     n, T, base, cpl, seed = c["n"], c["T"], c["lambda_base"], c["coupling_strength"], c["seed"]
+    for o in (out, out2):
+        if isinstance(o, Raised):
+            return f"the call raised {o.what}"
     X, A = out
     if not (isinstance(X, np.ndarray) and X.shape == (T, n)):
         return f"series shape {getattr(X, 'shape', None)}, expected {(T, n)}"
@@ -254,7 +282,7 @@ def pois_pred(c, out, out2, adj):
         return "returned matrix is not 0/1"
     if not np.array_equal(A, adj):
         i, j = [int(x) for x in np.argwhere(A != adj)[0]]
-        return f"returned A[{i},{j}] = {A[i, j]!r} but the graph used has adjacency {adj[i, j]!r} there"
+        return f"returned A[{i},{j}] = {float(A[i, j])!r} but the graph used has adjacency {float(adj[i, j])!r} there"
     # conditional mean as the property states it, from the emitted counts and the returned matrix
     lam = [[max(0.1, base + cpl * float(sum(A[j, i] * X[t - 1, j] for j in range(n)))) for i in range(n)] for t in range(1, T)]
     regen, used, retries = replay_poisson(seed, base, n, X, lam)
@@ -262,9 +290,9 @@ def pois_pred(c, out, out2, adj):
     if not np.array_equal(regen, X):
         t, i = [int(x) for x in np.argwhere(regen != X)[0]]
         if t == 0:
-            return f"X[0,{i}] = {X[0, i]!r} but the seed's Poisson(lambda_base) draw is {regen[0, i]!r}"
-        return (f"X[{t},{i}] = {X[t, i]!r} but the seed's Poisson draw with mean max(0.1, lambda_base + coupling * sum_j A[j,{i}] X[{t - 1},j]) "
-                f"= {lam[t - 1][i]!r} is {regen[t, i]!r}")
+            return f"X[0,{i}] = {float(X[0, i])!r} but the seed's Poisson(lambda_base) draw is {float(regen[0, i])!r}"
+        return (f"X[{t},{i}] = {float(X[t, i])!r} but the seed's Poisson draw with mean max(0.1, lambda_base + coupling * sum_j A[j,{i}] X[{t - 1},j]) "
+                f"= {float(lam[t - 1][i])!r} is {float(regen[t, i])!r}")
     return None
 
 
@@ -282,11 +310,11 @@ def run(chk):
                     "spectral radius: numpy/scipy eigvals (with an eigenvalue-condition guard); abstract function with a scaling law on the Coq side",
                     "float rounding: the model is exact rational arithmetic; algebraic relations are compared within 1e-9 relative"]
     chk.assumptions += ["0 < rho < 1, epsilon > 0, coupling >= 0, lambda_base >= 0, integer seeds, n >= 1, T >= 1",
-                        "user-supplied graphs are unweighted (Di)Graphs on nodes 0..n-1 inserted in that order",
+                        "user-supplied graphs are unweighted (Di)Graphs with node labels 0..n-1 (inserted in any order); matrix index k = k-th node of G.nodes() (networkx convention)",
                         "Poisson growth is kept below ~1e7 counts (T shortened for super-critical couplings) so that numpy's Poisson sampler accepts the rate"]
 
     # ------------------------------------------------------------------ linear process
-    n_lin = 70 if quick else 4000
+    n_lin = 70 if quick else 2500
     n_reg = 3 if quick else 40
     KINDS = ["empty", "dag", "chain", "cycle", "selfloops", "complete", "one_edge", "undirected"]
     confs = [dict(rho=0.5, n=20, T=100, p=0.1, epsilon=0.1, seed=42, kind="default-call", eps2=0.7)]
@@ -312,24 +340,24 @@ def run(chk):
         if G is not None:
             kw["G"] = G
         if c["kind"] == "default-call":
-            out = lin(c["rho"])
+            out = call(lin, c["rho"])
         else:
-            out = lin(c["rho"], **kw)
+            out = call(lin, c["rho"], **kw)
         perturb_globals(rng)
-        out2 = lin(c["rho"], **kw)
-        out3 = lin(c["rho"], **{**kw, "epsilon": c["eps2"]})
+        out2 = call(lin, c["rho"], **kw)
+        out3 = call(lin, c["rho"], **{**kw, "epsilon": c["eps2"]})
         Gu = graph_used(n, c["p"], c["seed"], G)
         adj = adjacency_of(Gu, n)
         R, W = replay_linear(c["seed"], n, T)
         d = {"generator": "linear_stochastic_gaussian_process", "call": {k: v for k, v in c.items() if not k.startswith("_") and k != "kind"},
              "graph": c["kind"], "edges_u_to_v": [[int(u), int(v)] for u, v in Gu.edges()] if n <= 10 else "large",
-             "undirected": not Gu.is_directed()}
+             "node_insertion_order": [int(u) for u in Gu.nodes()] if n <= 10 else "large", "undirected": not Gu.is_directed()}
         try:
             fail = lin_pred(c, out, out2, out3, R, W, adj)
         except Exception as e:   # malformed output is a property failure, not a machinery failure
             fail = f"predicate could not be evaluated on the returned values: {type(e).__name__}: {e}"
         pf.append(fail)
-        XY, A = out
+        XY, A = (None, None) if isinstance(out, Raised) else out
         M = adj.T * R
         m = float(np.max(np.abs(np.linalg.eigvals(M)))) if n > 0 else 0.0
         ok_shape = isinstance(XY, np.ndarray) and isinstance(A, np.ndarray) and XY.shape == (T, n) and A.shape == (n, n) \
@@ -350,9 +378,11 @@ def run(chk):
         desc.append(d)
         chk.case(key=("lin",) + tuple(sorted((k, v) for k, v in c.items() if not k.startswith("_"))) + (tuple(map(tuple, adj.tolist())),),
                  nontrivial=T >= 2 and bool(adj.any()),
-                 sample={**d, "X_first_rows": np.asarray(XY)[:3].tolist()} if n <= 3 and T >= 2 and adj.any() and len(chk.samples) < 2 else None)
+                 sample={**d, "X_first_rows": head(XY, 3)} if n <= 3 and T >= 2 and adj.any() and len(chk.samples) < 2 else None)
         chk.count("lin.calls")
         chk.count("lin.graph." + c["kind"])
+        if G is not None and list(G.nodes()) != sorted(G.nodes()):
+            chk.count("lin.user_graph_nodes_inserted_out_of_order")
         chk.count("lin.radius." + str(c.get("_radius")))
         chk.count("lin.n_le_3" if n <= 3 else "lin.n_4_8" if n <= 8 else "lin.n_9_20")
         chk.count("lin.T_1" if T == 1 else "lin.T_2_10" if T <= 10 else "lin.T_gt_10")
@@ -363,7 +393,7 @@ def run(chk):
                    lambda i: desc[i], shard=3 if quick else 8, jobs=14, timeout=1500)
 
     # ------------------------------------------------------------------ Poisson network
-    n_poi = 90 if quick else 4000
+    n_poi = 90 if quick else 3000
     pconfs = [dict(n=10, T=100, p=0.2, lambda_base=2.0, coupling_strength=0.3, seed=42, kind="default-call")]
     for _ in range(n_poi):
         n = int(rng.integers(1, 9)) if rng.random() < 0.95 else int(rng.integers(9, 15))
@@ -388,14 +418,14 @@ def run(chk):
         kw = dict(n=n, T=c["T"], p=c["p"], lambda_base=c["lambda_base"], coupling_strength=c["coupling_strength"], seed=c["seed"])
         if G is not None:
             kw["G"] = G
-        out = poi() if c["kind"] == "default-call" else poi(**kw)
+        out = call(poi) if c["kind"] == "default-call" else call(poi, **kw)
         perturb_globals(rng)
-        out2 = poi(**kw)
+        out2 = call(poi, **kw)
         try:
             fail = pois_pred(c, out, out2, adj)
         except Exception as e:
             fail = f"predicate could not be evaluated on the returned values: {type(e).__name__}: {e}"
-        runs.append((c, Gu, adj, out, fail))
+        runs.append((c, Gu, adj, (None, None) if isinstance(out, Raised) else out, fail))
     # The rates that regenerate the returned counts through the replayed rng.poisson (found by the predicate above) are
     # handed to Coq, where the model recomputes the rate table from the EMITTED counts and the RETURNED matrix and must
     # agree with them to 1e-12 relative: so the model's rates, pushed through the replayed generator, regenerate the counts.
@@ -404,14 +434,12 @@ def run(chk):
         n, T = c["n"], c["T"]
         d = {"generator": "poisson_coupled_oscillators", "call": {kk: v for kk, v in c.items() if not kk.startswith("_") and kk != "kind"},
              "graph": c["kind"], "edges_u_to_v": [[int(u), int(v)] for u, v in Gu.edges()] if n <= 10 else "large",
-             "undirected": not Gu.is_directed(),
+             "node_insertion_order": [int(u) for u in Gu.nodes()] if n <= 10 else "large", "undirected": not Gu.is_directed(),
              "returned_A": np.asarray(A).tolist() if np.size(A) <= 36 else "large",
-             "X_first_rows": np.asarray(X)[:4].tolist() if n <= 6 else "large"}
+             "X_first_rows": head(X, 4) if n <= 6 else "large"}
         pf.append(fail)
         desc.append(d)
-        edges = [(int(u), int(v)) for u, v in Gu.edges()]
-        if not Gu.is_directed():
-            edges += [(v, u) for u, v in edges]
+        edges = [(int(k), int(l)) for k, l in np.argwhere(adj != 0)]        # index pairs (positions in G.nodes())
         edges_c = coq_list([f"({u}%nat, {v}%nat)" for u, v in edges])
         floor_hits = 0
         ok = isinstance(X, np.ndarray) and isinstance(A, np.ndarray) and X.shape == (T, n) and A.shape == (n, n) \
@@ -430,6 +458,8 @@ def run(chk):
                  nontrivial=coupled, sample=d if n <= 3 and coupled and T >= 3 and sum(1 for s in chk.samples if s.get("generator", "").startswith("poisson")) < 2 else None)
         chk.count("poisson.calls")
         chk.count("poisson.graph." + c["kind"])
+        if list(Gu.nodes()) != sorted(Gu.nodes()):
+            chk.count("poisson.user_graph_nodes_inserted_out_of_order")
         chk.count("poisson.draws_replayed", n * T)
         chk.count("poisson.rates_at_floor", floor_hits)
         chk.count("poisson.coupled" if coupled else "poisson.uncoupled")
@@ -451,7 +481,7 @@ def run(chk):
         "computes the rate table from the returned counts and matrix; those rates pushed through the replayed rng.poisson must regenerate the "
         "returned counts exactly, and the returned matrix must equal the 0/1 adjacency of the graph used. "
         "Predicate on the implementation (no model involved): shapes, determinism, support/orientation, spectral radius rho by numpy "
-        "(0 if acyclic; skipped with a count when the eigenvalue is ill-conditioned), X_t - A X_(t-1) = eps * replayed normal within 1e-9, "
+        "(exactly nilpotent if the graph is acyclic; skipped with a count when the eigenvalue is ill-conditioned), X_t - A X_(t-1) = eps * replayed normal within 1e-9, "
         "X(eps2)/eps2 = X(eps)/eps, integer non-negative counts, A = 0/1 adjacency, counts regenerated by the replayed Poisson draws with mean "
         "max(0.1, base + c * sum_j A[j,i] X[t-1,j]). Statistical: OLS of X_t on X_(t-1) at T=4000 must be within 8 standard errors of the returned A "
         f"entrywise (two-sided Gaussian tail 1.3e-15 per entry; <= 16 entries x {n_reg} runs: error budget < 1e-9). "
